@@ -391,3 +391,313 @@ def c01_stream(report, cfg, lengths):
             if ok:
                 report.ok("R1.5", key, sample={"alias": name, "lengths": list(lengths), "config": cfg})
         engine_guard(go, report, "R1.5", key)
+
+
+# ------------------------------------------------------------------------------------ C02 / C11
+
+def refill_hooks():
+    """Modular mode for histories: ChaCha::refill / refill4 as established by C14 - the block at the
+    current 64-bit counter (uninterpreted function KS of the state rows and the round count), then
+    counter + 1 (+ 4, four consecutive blocks)."""
+    def one(it, key, args, callee, n):
+        sp, dr, outp = args
+        st = it.deref_read(sp, CHACHA_TY)
+        b, c, d = state_rows(it, st)
+        out = ()
+        for i in range(n):
+            di = bv.add(d[:64], bv.const(i, 64)) + d[64:]
+            out += bv.ufn("KS", (b, c, di, dr), 512)
+        nd = bv.add(d[:64], bv.const(n, 64)) + d[64:]
+        it.deref_write(sp, CHACHA_TY, Agg([b, c, nd]))
+        at = it.ty.get(it.ins[key]["body"]["locals"][3])["pointee"]
+        it.deref_write(outp, at, it.from_bits(out, at))
+        return Agg(())
+    return {r"^c2_chacha::guts::ChaCha::refill$": lambda it, k, a, c: one(it, k, a, c, 1),
+            r"^c2_chacha::guts::ChaCha::refill4$": lambda it, k, a, c: one(it, k, a, c, 4)}
+
+
+def ks_block_modular(name, kbits, nbits, blk):
+    nonce, dr, isx = ALIASES[name]
+    b, c, d = expected_init(name, kbits, nbits)
+    if nonce == 12:
+        dd = bv.const(blk & 0xffffffff, 32) + d[32:]
+    else:
+        dd = bv.const(blk & ((1 << 64) - 1), 64) + d[64:]
+    return bv.ufn("KS", (b, c, dd, bv.const(dr, 32)), 512)
+
+
+class HistoryResult:
+    def __init__(self):
+        self.findings = []     # (site key, message)
+        self.ok = True
+
+
+def run_history_modular(f, name, ops):
+    """Evaluate a history on a fresh cipher (symbolic key, nonce, data; refill modular).
+    ops: ("seek", pos) / ("apply", n) / ("pos",).  Returns list of (site key, message)."""
+    bv.reset()
+    it = Interp(f, MODELS, hooks=refill_hooks())
+    nonce, dr, isx = ALIASES[name]
+    findings = []
+    cell, t, kbits, nbits = make_cipher(it, f, name)
+    apply_i = find(f, r"^<%s as cipher::stream::StreamCipher>::try_apply_keystream$" % re.escape(t))
+    seek_i = find(f, r"^<%s as cipher::stream::StreamCipherSeek>::try_seek::<u64>$" % re.escape(t))
+    pos_i = f.find(r"^<%s as cipher::stream::StreamCipherSeek>::try_current_pos::<u64>$" % re.escape(t))
+    limit = (1 << 38) if nonce == 12 else (1 << 70)      # 2^32 resp. 2^64 blocks of 64 bytes
+    pos = 0
+    ksc = {}
+    hist = " ".join("%s(%s)" % (o[0], hex(o[1]) if len(o) > 1 else "") for o in ops)
+
+    def site_of(d):
+        s = d.site
+        inst = s[1] if len(s) > 1 and isinstance(s[1], str) else "?"
+        return "%s:%s" % (short_inst(inst), s[0].replace("assertion ", "").replace(" fails", ""))
+
+    for k, op in enumerate(ops):
+        it.asserts = []
+        try:
+            if op[0] == "seek":
+                r = it.call_instance(seek_i, [Ptr(cell, ()), bv.const(op[1], 64)])
+                in_range = op[1] <= limit
+                ok = isinstance(r, Enum) and r.variant == 0
+                if in_range and not ok:
+                    findings.append(("try_seek:in-range-fails", "%s: try_seek(%#x) fails although the position is within the keystream [%s]" % (name, op[1], hist)))
+                    return findings
+                if not in_range:
+                    if ok:
+                        findings.append(("try_seek:past-end-accepted", "%s: try_seek(%#x) past the end of the keystream succeeds [%s]" % (name, op[1], hist)))
+                        return findings
+                else:
+                    pos = op[1]
+            elif op[0] == "pos":
+                if not pos_i:
+                    findings.append(("try_current_pos:missing", "try_current_pos instance not found"))
+                    return findings
+                try:
+                    r = it.call_instance(pos_i[0], [Ptr(cell, ())])
+                except Diverge as dv:
+                    findings.append(("panic:" + site_of(dv), "%s: try_current_pos panics (%s) [%s]" % (name, dv.site[2] if len(dv.site) > 2 else dv.site[0], hist)))
+                    continue
+                if pos >= (1 << 64):
+                    if not (isinstance(r, Enum) and r.variant == 1):
+                        findings.append(("try_current_pos:wrong", "%s: position %#x does not fit u64 but try_current_pos::<u64> does not fail [%s]" % (name, pos, hist)))
+                    continue
+                if not (isinstance(r, Enum) and r.variant == 0 and bv.const_value(r.f[0]) == pos):
+                    got = bv.const_value(r.f[0]) if isinstance(r, Enum) and r.variant == 0 else "Err"
+                    findings.append(("try_current_pos:wrong", "%s: try_current_pos reports %s at absolute position %#x [%s]" % (name, got if not isinstance(got, int) else hex(got), pos, hist)))
+            else:
+                n = op[1]
+                dbits, dcell = bytes_cell(it, "data%d" % k, n)
+                r = it.call_instance(apply_i, [Ptr(cell, ()), Ptr(dcell, (), idx=0, meta=n, ety="u8")])
+                should_fail = pos + n > limit
+                if should_fail:
+                    if r.variant != 1:
+                        findings.append(("apply:past-end-accepted", "%s: %d-byte request at %#x crosses the end of the keystream but succeeds [%s]" % (name, n, pos, hist)))
+                        return findings
+                    if cell_bytes(dcell) != dbits:
+                        findings.append(("apply:failed-request-modified-data", "%s: failed request at %#x modified the data [%s]" % (name, pos, hist)))
+                        return findings
+                elif r.variant != 0:
+                    findings.append(("apply:in-range-fails", "%s: %d-byte request at %#x fails although it ends within the keystream [%s]" % (name, n, pos, hist)))
+                    return findings
+                else:
+                  got = cell_bytes(dcell)
+                  b0, b1 = pos // 64, (pos + n + 63) // 64
+                  ks = ()
+                  for blk in range(b0, b1):
+                      if blk not in ksc:
+                          ksc[blk] = ks_block_modular(name, kbits, nbits, blk)
+                      ks += ksc[blk]
+                  off = (pos - b0 * 64) * 8
+                  exp = bv.xor(dbits, ks[off:off + 8 * n])
+                  i = bv.first_diff(got, exp)
+                  if i is not None:
+                      findings.append(("apply:wrong-keystream", "%s: byte %d of a %d-byte request at absolute position %#x is not data ^ keystream[%#x] [%s]"
+                                       % (name, i // 8, n, pos, pos + i // 8, hist)))
+                      return findings
+                  pos += n
+        except Diverge as dv:
+            findings.append(("panic:" + site_of(dv), "%s: %s panics (%s) [%s]" % (name, op[0], dv.site[0], hist)))
+            return findings
+        # state invariant: key rows and stream-id / nonce words never change
+        buf, bt = field(it, cell.v, t, "state")
+        st, _ = field(it, buf, bt, "state")
+        rb, rc, rd = state_rows(it, st)
+        eb, ec, ed = expected_init(name, kbits, nbits)
+        keep = 32 if nonce == 12 else 64
+        if rb != eb or rc != ec or rd[keep:] != ed[keep:]:
+            what = "key rows" if (rb != eb or rc != ec) else "nonce/stream-id words"
+            ctr = bv.const_value(rd[:keep])
+            wrapped = (ctr == 0 and pos >= 64)
+            findings.append(("state:%s-changed:%s" % (what.split()[0], "counter-wrapped-into-them" if wrapped else "during-%s" % op[0]),
+                             "%s: the %s of the cipher state are modified once the last block has been generated (the block counter carries into them): "
+                             "a later seek reproduces a different keystream, and even a failed request does this [%s]" % (name, what, hist)))
+            return findings
+        for a in it.asserts:
+            findings.append(("panic:%s:%s" % (short_inst(a["inst"]), a["kind"]),
+                             "%s: %s check in %s depends on key/nonce/data values [%s]" % (name, a["kind"], short_inst(a["inst"]), hist)))
+        if it.panics:
+            findings.append(("panic:conditional", "%s: conditional panic %s [%s]" % (name, it.panics[0]["site"], hist)))
+            it.panics = []
+    return findings
+
+
+def histories(name, tier):
+    nonce, dr, isx = ALIASES[name]
+    end = (1 << 38) if nonce == 12 else (1 << 64) - 1     # last seekable position
+    lens = [0, 1, 63, 64, 65, 256, 321] if tier == "quick" else [0, 1, 2, 63, 64, 65, 127, 128, 255, 256, 257, 321, 600]
+    base = [0, 1, 63, 64, 65, 300]
+    wrap32 = [(1 << 38) - 257, (1 << 38) - 65, (1 << 38) - 64, (1 << 38) - 1]
+    near_end = [end - 600, end - 257, end - 65, end - 64, end - 1, end]
+    pts = base + wrap32 + ([(1 << 38), (1 << 38) + 1] if nonce != 12 else []) + near_end
+    pts = sorted(set(p for p in pts if 0 <= p <= end))
+    out = []
+    for p in pts:
+        for n1 in lens:
+            out.append([("seek", p), ("apply", n1), ("pos",)])
+            for n2 in (lens if tier == "thorough" else [1, 64, 257]):
+                out.append([("seek", p), ("apply", n1), ("apply", n2), ("pos",)])
+    # re-seeking backwards / forwards, twice the same position (involution), seek after reaching the end
+    for p in pts:
+        for q in (0, 5, p):
+            out.append([("seek", p), ("apply", 70), ("seek", q), ("apply", 130), ("pos",)])
+            out.append([("apply", 100), ("seek", p), ("pos",), ("apply", 10), ("seek", q), ("apply", 65)])
+    # the end of the keystream: a failing request leaves data, position and usability intact
+    for back in ((0, 1, 10, 64, 65, 300) if nonce == 12 else ()):
+        for n in (back + 1, back + 64, back + 400):
+            out.append([("seek", end - back), ("apply", n), ("pos",), ("apply", back), ("pos",), ("apply", 1)])
+    last = end if nonce == 12 else (1 << 64)
+    out.append([("seek", last - 64), ("apply", 64), ("seek", 0), ("apply", 64)])        # back to block 0 after the last block
+    out.append([("seek", last - 256), ("apply", 256), ("seek", 64), ("apply", 128)])
+    # seeks past the end must fail without panicking (32-bit counter); 64-bit: every u64 is in range
+    if nonce == 12:
+        for p in (end + 1, end + 64, (1 << 39), (1 << 64) - 1):
+            out.append([("seek", p), ("pos",), ("apply", 5)])
+    return out
+
+
+def c02_histories(report, cfg, name, tier, rule="R2.3", chunk=None):
+    f = facts.load(cfg)
+    hs = histories(name, tier)
+    if chunk is not None:
+        i, n = chunk
+        hs = hs[i::n]
+    seen = {}
+    done = 0
+    for ops in hs:
+        try:
+            fs = run_history_modular(f, name, ops)
+        except Undecided as e:
+            report.undecide(rule, "%s:%s" % (name, ops), str(e))
+            continue
+        done += 1
+        for site, msg in fs:
+            key = "%s:%s@%s" % (name, site, cfg)
+            if key not in seen:
+                seen[key] = msg
+                report.violated(rule, key, msg)
+        if not fs:
+            report.ok(rule, "%s:%s@%s" % (name, " ".join("%s%s" % (o[0][0], hex(o[1]) if len(o) > 1 else "") for o in ops), cfg),
+                      sample={"alias": name, "history": [list(o) for o in ops]} if done % 97 == 1 else None)
+    return done
+
+
+SEEK_TYPES = {"u8": (8, False), "u16": (16, False), "u32": (32, False), "u64": (64, False), "u128": (128, False),
+              "usize": (64, False), "i32": (32, True)}
+
+
+def c02_seek_types(report, cfg, rule="R2.2"):
+    """try_seek::<T> for every SeekNum type: Ok exactly for 0 <= v <= end of keystream, and then the
+    position is v; negative or too large values give LoopError; never a panic."""
+    f = facts.load(cfg)
+    n = 0
+    for name in ("ChaCha20", "Ietf", "XChaCha12"):
+        nonce, dr, isx = ALIASES[name]
+        limit = (1 << 38) if nonce == 12 else (1 << 64) - 1
+        for tn, (bits, signed) in SEEK_TYPES.items():
+            vals = {0, 1, 63, 64, 65, (1 << (bits - (1 if signed else 0))) - 1}
+            if signed:
+                vals |= {-1, -(1 << (bits - 1))}
+            if bits > 38:
+                vals |= {(1 << 38) - 1, 1 << 38, (1 << 38) + 1}
+            if bits > 64:
+                vals |= {(1 << 64) - 1, 1 << 64, (1 << 128) - 1}
+            for v in sorted(vals):
+                ikey = "%s::try_seek::<%s>(%d)@%s" % (name, tn, v, cfg)
+                n += 1
+
+                def go():
+                    bv.reset()
+                    it = Interp(f, MODELS, hooks=refill_hooks())
+                    cell, t, kbits, nbits = make_cipher(it, f, name)
+                    seek_i = find(f, r"^<%s as cipher::stream::StreamCipherSeek>::try_seek::<%s>$" % (re.escape(t), tn))
+                    pos_i = find(f, r"^<%s as cipher::stream::StreamCipherSeek>::try_current_pos::<u64>$" % re.escape(t))
+                    r = it.call_instance(seek_i, [Ptr(cell, ()), bv.const(v, bits)])
+                    want_ok = 0 <= v <= limit
+                    got_ok = isinstance(r, Enum) and r.variant == 0
+                    if it.asserts or it.panics:
+                        report.violated(rule, ikey + ":assert", "operand-dependent assertion in try_seek::<%s>" % tn)
+                    elif want_ok != got_ok:
+                        report.violated(rule, ikey, "%s: try_seek::<%s>(%d) %s, expected %s (keystream positions are 0..=%#x)"
+                                        % (name, tn, v, "succeeds" if got_ok else "fails", "success" if want_ok else "LoopError", limit))
+                    else:
+                        if want_ok:
+                            p = it.call_instance(pos_i, [Ptr(cell, ())])
+                            if not (isinstance(p, Enum) and p.variant == 0 and bv.const_value(p.f[0]) == v):
+                                report.violated(rule, ikey + ":pos", "%s: after try_seek::<%s>(%d) the reported position differs" % (name, tn, v))
+                                return
+                        report.ok(rule, ikey, sample={"alias": name, "type": tn, "value": v, "result": "Ok" if got_ok else "LoopError"} if v in (-1, 1 << 38) else None)
+                try:
+                    go()
+                except Diverge as dv:
+                    report.violated(rule, ikey, "%s: try_seek::<%s>(%d) panics: %s" % (name, tn, v, dv.site[:2]))
+                except Undecided as e:
+                    report.undecide(rule, ikey, str(e))
+    return n
+
+
+def end_histories(name):
+    """Histories around the end of the keystream and the counter word boundaries (C11)."""
+    nonce, dr, isx = ALIASES[name]
+    out = []
+    if nonce == 12:
+        end = 1 << 38
+        for back in (0, 1, 10, 63, 64, 65, 255, 256, 257, 300):
+            for n in (back, back + 1, back + 63, back + 64, back + 400):
+                out.append([("seek", end - back), ("pos",), ("apply", n), ("pos",), ("apply", back), ("pos",), ("apply", 1), ("pos",)])
+            out.append([("seek", end - back), ("apply", back), ("seek", 0), ("apply", 100), ("seek", end - back), ("apply", back)])
+        for p in (end + 1, end + 63, end + 64, 1 << 39, (1 << 64) - 1):
+            out.append([("seek", 7), ("apply", 3), ("seek", p), ("pos",), ("apply", 5), ("pos",)])
+    else:
+        for base in (1 << 38, 1 << 64):
+            for back in (1, 64, 65, 256, 257, 300):
+                for n in (back, back + 1, back + 64, back + 300):
+                    out.append([("seek", base - back), ("apply", n), ("pos",), ("apply", 64), ("pos",)])
+        out.append([("seek", (1 << 64) - 1), ("apply", 1), ("apply", 64), ("seek", 0), ("apply", 64), ("pos",)])
+    return out
+
+
+def c11_histories(report, cfg, name, chunk=None):
+    f = facts.load(cfg)
+    hs = end_histories(name)
+    if chunk is not None:
+        hs = hs[chunk[0]::chunk[1]]
+    seen = set()
+    done = 0
+    for ops in hs:
+        try:
+            fs = run_history_modular(f, name, ops)
+        except Undecided as e:
+            report.undecide("R11.2", "%s:%s" % (name, ops), str(e))
+            continue
+        done += 1
+        for site, msg in fs:
+            rule = "R11.3" if site.startswith("state:") else ("R11.1" if "seek" in site else "R11.2")
+            key = "%s:%s@%s" % (name, site, cfg)
+            if key not in seen:
+                seen.add(key)
+                report.violated(rule, key, msg)
+        if not fs:
+            report.ok("R11.2", "%s:%s@%s" % (name, " ".join("%s%s" % (o[0][0], hex(o[1]) if len(o) > 1 else "") for o in ops), cfg),
+                      sample={"alias": name, "history": [list(o) for o in ops]} if done % 23 == 1 else None)
+    return done
